@@ -507,6 +507,69 @@ def check_laws(run):
                      "C13_continuous_at_contact")
 
 
+def partial_params_unchanged_cases(run):
+    """parameter sets that leave out arguments with documented defaults handed
+    to model() / residual(): the caller's object keeps exactly its entries
+    (names, values, vary flags), whatever the wrapper needs internally"""
+    import lmfit
+    from nanite import model
+    for mk in sorted(model.models_available):
+        md = model.models_available[mk]
+        full = md.get_parameter_defaults()
+        names = list(full.keys())
+        if "contact_point" not in names or "baseline" not in names:
+            continue
+        mfile = getattr(getattr(md, "module", None), "__file__", "") or ""
+        if not (mfile.startswith(str(common.REPO)) or mk.startswith("nv_")):
+            continue
+        for drop in (["baseline"], ["contact_point"],
+                     ["contact_point", "baseline"]):
+            for fn in ("model", "residual"):
+                if fn == "residual" and "contact_point" in drop:
+                    continue        # the weights need the contact point
+                run.case({"partial-unchanged": mk, "missing": drop,
+                          "call": fn}, kind="partial-unchanged")
+                key = f"partial-unchanged:{mk}:{'+'.join(drop)}:{fn}"
+                try:
+                    p = lmfit.Parameters()
+                    for n_ in names:
+                        if n_ not in drop:
+                            p.add(n_, value=float(full[n_].value),
+                                  vary=bool(full[n_].vary))
+                    before = [(n_, float(v_.value), bool(v_.vary), v_.expr,
+                               v_.min, v_.max) for n_, v_ in p.items()]
+                    x = np.linspace(1e-6, -1e-6, 9)
+                    x0 = x.copy()
+                    y = np.linspace(0, 1e-9, 9)
+                    y0 = y.copy()
+                    with warnings.catch_warnings():
+                        warnings.simplefilter("ignore")
+                        if fn == "model":
+                            md.model(p, x)
+                        else:
+                            md.residual(p, x, y, weight_cp=5e-7)
+                    after = [(n_, float(v_.value), bool(v_.vary), v_.expr,
+                              v_.min, v_.max) for n_, v_ in p.items()]
+                    why = None
+                    if after != before:
+                        why = (f"the caller's parameter set had the entries "
+                               f"{[b[0] for b in before]} and has "
+                               f"{[a[0] for a in after]} after the call"
+                               if [a[0] for a in after]
+                               != [b[0] for b in before]
+                               else "entries of the caller's parameter set "
+                               "changed")
+                    elif not np.array_equal(x, x0) or not np.array_equal(y,
+                                                                        y0):
+                        why = "the abscissa / data array was modified"
+                except BaseException as e:
+                    why = f"raised {type(e).__name__}: {e}"
+                if why:
+                    run.failing(SITE_M, key, f"{mk}.{fn}() without {drop}: "
+                                f"{why}", payload={"kind": "rerun"},
+                                theorem="C13 (inputs not modified)")
+
+
 def expression_law_cases(run):
     """parameter sets in which one parameter follows another through a
     constraint expression, handed to model() / residual() right after an
@@ -614,6 +677,7 @@ def check(run):
     signature_order_cases(run)
     check_laws(run)
     expression_law_cases(run)
+    partial_params_unchanged_cases(run)
     run.rule = ("harness-registered order-sensitive / asserting / ancillary /"
                 " expression models on abscissae of both orientations, sizes "
                 "1-13, constant and unsorted; structural laws on every "
